@@ -894,6 +894,13 @@ impl World {
         if !(d.is_finite() && d >= 0.0) {
             viol!("c10.debt_sign", "allocation_debt() = {d}");
         }
+        // (the reported debt is a function of the arena's state: an adjustment by exactly zero leaves it where it was,
+        // positive or not - a stale cached value shows here)
+        self.metrics.adjust_debt(0.0);
+        let d_again = self.metrics.allocation_debt();
+        if d_again != d {
+            viol!("c10.adjust_exact", "adjust_debt(0.0) moved allocation_debt() from {d} to {d_again}");
+        }
         let live = talloc::gc_live_count_range(self.base, self.base + 128);
         let cnt = self.metrics.total_gc_count();
         if cnt != live + self.count_offset {
